@@ -57,7 +57,7 @@ CfgOf(c) == [name |-> c.name, nlevels |-> c.nlevels,
                              variant |-> c.levels[i].variant, cls |-> c.levels[i].cls]],
              limit |-> c.limit, hib |-> c.hib, gsc |-> c.gsc, gscn |-> c.gscn, gscw |-> c.gscw,
              max |-> c.max, sprout |-> c.sprout, generator |-> c.generator, haslocal |-> c.haslocal, cutoff |-> c.cutoff,
-             idlecheck |-> c.idlecheck]
+             idlecheck |-> c.idlecheck, localmethod |-> IF c.sprout = "nbc_local" THEN 1 ELSE 0]
 
 -----------------------------------------------------------------------------
 (* Pre: model steps that precede the observation point.  Returns [st, errs] *)
